@@ -46,10 +46,10 @@ HARNESSES = [
     scenarios_thorough=[{'SOP0': 0, 'SOP1': 0, 'NOP': 1}, {'SOP0': 0, 'SOP1': 1, 'NOP': 1},
                         {'SOP0': 0, 'SOP1': 0, 'NOP': 3, 'CTX0': 1, 'NEED0': 1, 'CTX1': 2, 'NEED1': 2},
                         {'SOP0': 0, 'SOP1': 0, 'NOP': 2, 'VAL': 2, 'CTX0': 1, 'NEED0': 1, 'CTX1': 2, 'NEED1': 2}],
-    timeout=900, thorough_override=dict(defines={'NS': 2, 'ROUNDS': 2, 'NEXTRA': 2}, timeout=5400),
+    timeout=900, thorough_override=dict(defines={'NS': 2, 'ROUNDS': 1, 'NEXTRA': 4}, timeout=3600),
     desc='concurrent_monitor: 2 sleepers vs 1 notifier: notify_all on a shared flag; bounded-queue style tickets (contexts 1,2; notify(ctx<=ticket) after each '
          'increment, NOP 3) ; one notify(ctx<=2) releasing both (NOP 2)',
-    bounds={'threads': 3, 'free_rounds': '1 quick / 2 thorough', 'forced_rounds': 2, 'unroll': 1,
+    bounds={'threads': 3, 'free_rounds': 1, 'forced_rounds': 2, 'unroll': 1,
             'notifier_slices': 'the notifier gets NEXTRA extra slices per free round: its list-walking loops advance one iteration per slice (unroll 1)'}),
   # ---------------- addr: tbb::mutex / tbb::rw_mutex through the real address_waiter.cpp (registered for C08 as well)
   H(name='addr_mutex_2t', unit='mtx2', harness='h_addr.c', defines={'NT': 2, 'ROUNDS': 2, 'MTX_WAIT_CLOSURE': MC},
@@ -78,8 +78,8 @@ HARNESSES = [
     desc='2 updaters + 1 thread changing the soft limit (set_active_num_workers, symbolic new limit) concurrently',
     bounds={'threads': 3, 'free_rounds': '1 quick / 2 thorough', 'forced_rounds': 2, 'delta_range': '[-3,3], limits 0..4'}),
   H(name='serializer_3u', unit='ser3', harness='h_ser.c', defines={'NU': 3, 'ROUNDS': 1, 'DMAX': 2, 'LMAX': 2, 'SER_WAIT_CLOSURE': SC}, scenarios=[{}], timeout=900,
-    thorough_override=dict(defines={'NU': 3, 'ROUNDS': 2, 'DMAX': 2, 'LMAX': 2, 'SER_WAIT_CLOSURE': SC}, timeout=5400),
-    desc='3 concurrent updaters', bounds={'threads': 3, 'free_rounds': '1 quick / 2 thorough', 'forced_rounds': 2, 'delta_range': '[-2,2], limit 0..2'}),
+    thorough_override=dict(defines={'NU': 3, 'ROUNDS': 2, 'DMAX': 1, 'LMAX': 2, 'SER_WAIT_CLOSURE': SC}, timeout=5400),
+    desc='3 concurrent updaters', bounds={'threads': 3, 'free_rounds': '1 quick / 2 thorough', 'forced_rounds': 2, 'delta_range': '[-2,2], limit 0..2 quick / [-1,1], limit 0..2 with 2 free rounds thorough'}),
   # ---------------- proxy: mandatory concurrency (enqueue while the soft limit is 0)
   H(name='proxy_2t', unit='prx2', harness='h_proxy.c', defines={'NT': 2, 'ROUNDS': 2, 'SER_WAIT_CLOSURE': SC},
     scenarios=[{'PRE': 0, 'OP0': 0, 'OP1': 0}, {'PRE': 1, 'OP0': 0, 'OP1': 1}, {'PRE': 2, 'OP0': 1, 'OP1': 1},
